@@ -393,10 +393,11 @@ def judge(store_before, store_after, verb, rid, rsrc, outcome, info,
     if outcome != 'accept' and store_after.key() != store_before.key():
         viol.append({'clause': 'refused-request-changed-store',
                      'site': form_of(verb, rsrc), 'detail': detail})
-    if check_store and outcome == 'accept' and not viol:
-        # safety net that does not depend on how the request was read: the
-        # store, whose every record went through the real API, stays within
-        # capacity and limits
+    if check_store and outcome == 'accept' and not viol \
+            and not store_invariant(store_before):
+        # safety net that does not depend on how the request was read: an
+        # accepted call never takes the store, whose every record went
+        # through the real API, from within capacity and limits to beyond
         for kind, d in store_invariant(store_after):
             viol.append({'clause': 'store-exceeds-%s' % (
                 'capacity' if kind == 'capacity' else 'trait-limit'),
@@ -475,6 +476,43 @@ def shrink(v):
                 v = dict(v, replay=cur, detail=hit[0]['detail'])
                 changed = True
                 break
+    return v
+
+
+def shortest_history(v, tier):
+    """Look for the same (clause, site) among all histories of <= 2 calls
+    (complete enumeration, single process) and prefer it."""
+    if v['replay']['kind'] != 'history' or len(v['replay']['calls']) <= 1:
+        return v
+    key = (v['clause'], v['site'])
+    creates, updates = history_calls(tier)
+    partitions = history_partitions()
+    for first in creates:
+        st = build_store(partitions, [])
+        before = st.clone()
+        outcome, info = call(st, *first)
+        viol, _f = judge(before, st, first[0], first[1], first[2], outcome,
+                         info, check_store=True)
+        for x in viol:
+            if (x['clause'], x['site']) == key:
+                return dict(v, detail=x['detail'], replay={
+                    'kind': 'history', 'partitions': partitions,
+                    'calls': [first]})
+    if len(v['replay']['calls']) <= 2:
+        return v
+    for first in creates:
+        st1 = build_store(partitions, [])
+        call(st1, *first)
+        for second in enabled_calls(st1, creates, updates):
+            st2 = st1.clone()
+            outcome, info = call(st2, *second)
+            viol, _f = judge(st1, st2, second[0], second[1], second[2],
+                             outcome, info, check_store=True)
+            for x in viol:
+                if (x['clause'], x['site']) == key:
+                    return dict(v, detail=x['detail'], replay={
+                        'kind': 'history', 'partitions': partitions,
+                        'calls': [first, second]})
     return v
 
 
